@@ -1,6 +1,8 @@
 package rules
 
 import (
+	"go/token"
+	"go/types"
 	"strings"
 
 	"golang.org/x/tools/go/ssa"
@@ -12,6 +14,7 @@ func init() { register("C14", c14) }
 
 func c14(c *Ctx) {
 	defer c14superiors(c)
+	defer c14inferiors(c)
 	P, R := c.P, c.R
 	R.Explain("R14.1", "pattern injection (T-SOURCE): every operand of regexp.Compile/MustCompile in the server packages is built only from constants and regexp.QuoteMeta results (string concatenation, fmt.Sprintf, strings.ReplaceAll of such parts); a raw configuration or client string in a pattern can make MustCompile panic or change the match.")
 	R.Explain("R14.2", "protection guards (T-DOM): handleCreate/handleDelete refuse INBOX (case-insensitively) before calling the state; the recovery mailbox guards of R20.3.")
@@ -302,4 +305,52 @@ func c14superiors(c *Ctx) {
 		}
 	}
 	R.Min("R14.6", "loops over listSuperiors in Create/Rename", n, 2)
+}
+
+// c14inferiors (R14.7): "inferior of" is the inverse of "superior of".
+func c14inferiors(c *Ctx) {
+	P, R := c.P, c.R
+	R.Explain("R14.7", "one definition of the hierarchy: listInferiors selects a name either because the parent is among listSuperiors(name) or because the name has the prefix parent+delimiter; any looser test (substring, suffix) makes RENAME/DELETE of a mailbox touch unrelated mailboxes whose name merely contains the parent's name.")
+	f := c.fn("R14.7", "internal/state.listInferiors")
+	if f == nil {
+		return
+	}
+	n := 0
+	for _, g := range engine.WithClosures(f) {
+		if g.Signature.Results().Len() != 1 || !isBoolType(g.Signature.Results().At(0).Type()) || g == f {
+			continue
+		}
+		for _, ret := range engine.Returns(g) {
+			n++
+			v := engine.ResultOf(ret, 0)
+			ok := false
+			if call, isCall := v.(*ssa.Call); isCall && call.Call.StaticCallee() != nil {
+				sc := call.Call.StaticCallee()
+				switch {
+				case engine.BaseName(sc) == "Contains" && strings.Contains(engine.PkgPathOf(sc), "slices") && len(call.Call.Args) == 2:
+					// slices.Contains(listSuperiors(name, …), parent)
+					if inner, ok2 := call.Call.Args[0].(*ssa.Call); ok2 && inner.Call.StaticCallee() != nil && engine.ShortName(inner.Call.StaticCallee()) == "listSuperiors" {
+						ok = true
+					}
+				case engine.ShortName(sc) == "HasPrefix" && engine.PkgPathOf(sc) == "strings" && len(call.Call.Args) == 2:
+					// strings.HasPrefix(name, parent+delimiter)
+					if _, isParam := call.Call.Args[0].(*ssa.Parameter); isParam {
+						if engine.AnyBackward(call.Call.Args[1], engine.FlowOpts{Loads: true}, func(x ssa.Value) bool {
+							bo, isBo := x.(*ssa.BinOp)
+							return isBo && bo.Op == token.ADD
+						}) {
+							ok = true
+						}
+					}
+				}
+			}
+			R.Check(ok, "R14.7", c.name(g)+"|inferior test", P.Pos(ret.Pos()), "membership in listSuperiors(name) or prefix parent+delimiter", "listInferiors selects names by a test that is neither `parent in listSuperiors(name)` nor `HasPrefix(name, parent+delimiter)`: mailboxes that are not below the parent are renamed/deleted along with it")
+		}
+	}
+	R.Min("R14.7", "inferior predicates", n, 1)
+}
+
+func isBoolType(t types.Type) bool {
+	b, ok := t.Underlying().(*types.Basic)
+	return ok && b.Kind() == types.Bool
 }
